@@ -13,8 +13,8 @@
 EXTENDS Calc, Json, IOUtils, TLC, TLCExt, SequencesExt
 Tr == JsonDeserialize(IOEnv.TRACE_FILE)
 K  == 6
-VARIABLES i, regs, mode, live
-tvars == <<i, regs, mode, live>>
+VARIABLES i, regs, mode, live, mc      \* mc: a money converter (rates MRates) is registered
+tvars == <<i, regs, mode, live, mc>>
 
 
 SeqRange(s) == {s[j] : j \in DOMAIN s}
@@ -48,8 +48,8 @@ NumBin(op, x, y) ==
                        ELSE Guard(SDiv(x.a, y.a), NumV(SDiv(x.a, y.a)))
 Bin(op, x, y) ==
     IF IsN(x) /\ IsN(y) THEN NumBin(op, x, y) ELSE
-    CASE op = "Add" -> Add(x, y, mode)
-      [] op = "Sub" -> Sub(x, y, mode)
+    CASE op = "Add" -> IF mc THEN AddSubMC(1, x, y, mode) ELSE Add(x, y, mode)
+      [] op = "Sub" -> IF mc THEN AddSubMC(-1, x, y, mode) ELSE Sub(x, y, mode)
       [] op = "Mul" -> IF IsQ(x) /\ IsN(y) THEN MulNum(x, y, mode)
                        ELSE IF IsN(x) /\ IsQ(y) THEN MulNum(y, x, mode)
                        ELSE IF IsU(x) /\ IsN(y) THEN Construct(x.u, y.a, mode)
@@ -65,11 +65,12 @@ Bin(op, x, y) ==
 Expected(ev) ==
     CASE ev.op = "Make"     -> Make(ev.cls, <<ev.a[1], ev.a[2]>>, ev.u, mode)
       [] ev.op = "Lit"      -> IF ev.k = "n" THEN NumV(<<ev.a[1], ev.a[2]>>) ELSE UnitV(ev.u)
-      [] ev.op = "Convert"  -> Convert(regs[ev.x], ev.u, mode)
+      [] ev.op = "Convert"  -> IF mc /\ regs[ev.x].t = "Money" THEN ConvertMC(regs[ev.x], ev.u, mode)
+                               ELSE Convert(regs[ev.x], ev.u, mode)
       [] ev.op \in {"Add", "Sub", "Mul", "Div"} -> Bin(ev.op, regs[ev.x], regs[ev.y])
       [] ev.op = "Neg"      -> Neg(regs[ev.x], mode)
       [] ev.op = "Abs"      -> AbsQ(regs[ev.x], mode)
-      [] ev.op = "Cmp"      -> Cmp(ev.c, regs[ev.x], regs[ev.y])
+      [] ev.op = "Cmp"      -> IF mc THEN CmpMC(ev.c, regs[ev.x], regs[ev.y]) ELSE Cmp(ev.c, regs[ev.x], regs[ev.y])
       [] ev.op = "Pow"      -> IF IsN(regs[ev.x])
                                THEN (IF ev.n < 0 /\ regs[ev.x].a = RZero THEN ErrV("ZeroDivisionError")
                                      ELSE Guard(SPowI(regs[ev.x].a, ev.n), NumV(SPowI(regs[ev.x].a, ev.n))))
@@ -106,24 +107,25 @@ NewReg(ev) ==
       [] ev.op \in {"Cmp", "Alloc", "HashEq", "Sort"} -> EmptyV
       [] OTHER -> IF ev.res.k \in {"q", "n"} THEN ObsVal(ev.res) ELSE EmptyV
 
-HasDest(ev) == ev.op \notin {"Cmp", "Alloc", "HashEq", "Sort", "Reset", "SetMode"}
+HasDest(ev) == ev.op \notin {"Cmp", "Alloc", "HashEq", "Sort", "Reset", "SetMode", "SetConv"}
 
-Init == i = 1 /\ regs = [r \in 1..K |-> EmptyV] /\ mode = "ROUND_HALF_EVEN" /\ live = TRUE
+Init == i = 1 /\ regs = [r \in 1..K |-> EmptyV] /\ mode = "ROUND_HALF_EVEN" /\ live = TRUE /\ mc = FALSE
 
 Step ==
     /\ i <= Len(Tr)
     /\ i' = i + 1
     /\ LET ev == Tr[i] IN
        IF ev.op = "Reset"
-       THEN regs' = [r \in 1..K |-> EmptyV] /\ mode' = "ROUND_HALF_EVEN" /\ live' = TRUE
-       ELSE IF ~live THEN UNCHANGED <<regs, mode, live>>
-       ELSE IF ev.op = "SetMode" THEN mode' = ev.m /\ UNCHANGED <<regs, live>>
+       THEN regs' = [r \in 1..K |-> EmptyV] /\ mode' = "ROUND_HALF_EVEN" /\ live' = TRUE /\ mc' = FALSE
+       ELSE IF ~live THEN UNCHANGED <<regs, mode, live, mc>>
+       ELSE IF ev.op = "SetMode" THEN mode' = ev.m /\ UNCHANGED <<regs, live, mc>>
+       ELSE IF ev.op = "SetConv" THEN mc' = ev.on /\ UNCHANGED <<regs, live, mode>>
        ELSE LET j == Judge(ev) IN
             /\ IF j = "ok" THEN TRUE
                ELSE PrintT(<<"QV", j, ev.id, IF ev.op \in {"Round", "Alloc", "HashEq", "Lit", "Sort"}
                                              THEN EmptyV ELSE Expected(ev)>>)
             /\ live' = (j = "ok")
-            /\ mode' = mode
+            /\ mode' = mode /\ mc' = mc
             /\ regs' = IF j = "ok" /\ HasDest(ev) /\ (ev.op = "Lit" \/ ev.res.k # "e")
                        THEN [regs EXCEPT ![ev.z] = NewReg(ev)] ELSE regs
 TraceSpec == Init /\ [][Step]_tvars
